@@ -47,13 +47,24 @@ func verifFill(src []byte, v interface{}, stream bool) error {
 	if o.kind == 0 || (o.kind == 2 && !stream) {
 		return errors.New("invalid character")
 	}
-	// every delivery decodes to freshly allocated objects
+	// every delivery decodes to freshly allocated objects. encoding/json decodes into what the target already
+	// holds (elements within the capacity of a re-sliced buffer included) and leaves fields absent from the
+	// input as they are: the stub's "exactly the described list" outcome presupposes a target without old elements
 	switch p := v.(type) {
 	case *[]*isolation.Rule:
+		for _, e := range (*p)[:cap(*p)] {
+			rt.Assert(e == nil, "the decode target holds no element of an earlier payload (encoding/json would merge into it)")
+		}
 		*p = verifIsoCopy(o.iso)
 	case *[]*flow.Rule:
+		for _, e := range (*p)[:cap(*p)] {
+			rt.Assert(e == nil, "the decode target holds no element of an earlier payload (encoding/json would merge into it)")
+		}
 		*p = verifFlowCopy(o.flw)
 	case *[]*circuitbreaker.Rule:
+		for _, e := range (*p)[:cap(*p)] {
+			rt.Assert(e == nil, "the decode target holds no element of an earlier payload (encoding/json would merge into it)")
+		}
 		c := make([]*circuitbreaker.Rule, 0, len(o.cb))
 		for _, r := range o.cb {
 			if r == nil {
@@ -65,6 +76,9 @@ func verifFill(src []byte, v interface{}, stream bool) error {
 		}
 		*p = c
 	case *[]*system.Rule:
+		for _, e := range (*p)[:cap(*p)] {
+			rt.Assert(e == nil, "the decode target holds no element of an earlier payload (encoding/json would merge into it)")
+		}
 		c := make([]*system.Rule, 0, len(o.sys))
 		for _, r := range o.sys {
 			if r == nil {
@@ -76,6 +90,9 @@ func verifFill(src []byte, v interface{}, stream bool) error {
 		}
 		*p = c
 	case *[]*HotspotRule:
+		for _, e := range (*p)[:cap(*p)] {
+			rt.Assert(e == nil, "the decode target holds no element of an earlier payload (encoding/json would merge into it)")
+		}
 		c := make([]*HotspotRule, 0, len(o.hs))
 		for _, r := range o.hs {
 			if r == nil {
